@@ -25,11 +25,16 @@ pub struct ChunkedBufRead<'a> {
 	/// fail the k-th fill_buf/read call (0-based) with an I/O error
 	pub fail_at_call: Option<usize>,
 	pub failed: bool,
+	/// Call horizon (the only thing that keeps a decoder that polls forever from hanging the check):
+	/// more than `50 * len + 100_000` fill_buf calls in total, or more than 10_000 at end of input,
+	/// are answered with an I/O error. No decoder that is bounded by its input comes near it.
+	pub horizon_hit: bool,
+	eof_polls: usize,
 }
 
 impl<'a> ChunkedBufRead<'a> {
 	pub fn new(data: &'a [u8], sizes: Vec<usize>, uniform: usize) -> Self {
-		ChunkedBufRead { data, pos: 0, chunk_end: 0, sizes, next_size: 0, uniform, fill_calls: 0, refills: 0, eof_hit: false, fail_at_call: None, failed: false }
+		ChunkedBufRead { data, pos: 0, chunk_end: 0, sizes, next_size: 0, uniform, fill_calls: 0, refills: 0, eof_hit: false, fail_at_call: None, failed: false, horizon_hit: false, eof_polls: 0 }
 	}
 	pub fn whole(data: &'a [u8]) -> Self {
 		Self::new(data, vec![], 0)
@@ -53,9 +58,18 @@ impl<'a> BufRead for ChunkedBufRead<'a> {
 			self.failed = true;
 			return Err(io::Error::new(io::ErrorKind::Other, "injected read error"));
 		}
+		if self.fill_calls > 50 * self.data.len() + 100_000 {
+			self.horizon_hit = true;
+			return Err(io::Error::new(io::ErrorKind::Other, "harness horizon: the reader was polled far more often than its input is long"));
+		}
 		if self.pos == self.chunk_end {
 			if self.pos == self.data.len() {
 				self.eof_hit = true;
+				self.eof_polls += 1;
+				if self.eof_polls > 10_000 {
+					self.horizon_hit = true;
+					return Err(io::Error::new(io::ErrorKind::Other, "harness horizon: the reader was polled 10 000 times after the end of its input"));
+				}
 				return Ok(&[]);
 			}
 			let sz = if self.next_size < self.sizes.len() {
